@@ -18,7 +18,8 @@ USES = {
     "C04": ["unique_complement_enum", "disjoint_increasing_cover"],
     "C03": ["unique_complement_enum", "disjoint_increasing_cover",
             "sum_congr_range", "sum_split_ico", "sum_last_ico",
-            "sum_mul_ico", "sum_div_ico", "exp_rules"],
+            "sum_mul_ico", "sum_div_ico", "sum_single_ico", "sum_empty_ico",
+            "exp_rules"],
     "C16": ["ess_bounds", "ess_scale", "weights_sum_one", "exp_rules",
             "sum_congr_range", "sum_nonneg_ico", "sum_pos_ico"],
 }
